@@ -72,6 +72,9 @@ type pathState struct {
 	goStmts      int
 	mapOrders    int
 	mapOrdersOff bool
+	lateGo       []pendingGo // goroutines not yet run (harness flag "latego")
+	inLateGo     int
+	pipes        map[*value]*pipeModel // modelled io.Pipe halves
 	grpcConns    map[*value]*grpcConn  // modelled gRPC client connections
 	locks        map[*value]*lockState // tracked mutexes (harness flag "locks")
 	lastModel    map[string]*Term
